@@ -289,6 +289,87 @@ def rule_memo_escape(ctx, repo):
 
 
 # ------------------------------------------------------------------------------ R-C15-3
+def _is_private(qn):
+    last = qn.split(".")[-1]
+    return "<locals>" in qn or (last.startswith("_") and not (last.startswith("__") and last.endswith("__")))
+
+
+def _callers_pass(m, fi, qn, param):
+    """How the in-module callers of a private helper supply ``param``: list of (calling FuncInfo, calling qualname, arg
+    expression or None if the default is used)."""
+    name = qn.split(".")[-1]
+    out = []
+    if param not in fi.params:
+        return out
+    pos = fi.params.index(param)
+    skip_self = 1 if fi.params and fi.params[0] in ("self", "cls") else 0
+    for cqn, cfi in m.functions.items():
+        if isinstance(cfi.node, ast.Lambda):
+            continue
+        for n in walk_no_nested(cfi.node):
+            if not isinstance(n, ast.Call):
+                continue
+            f = n.func
+            via_attr = isinstance(f, ast.Attribute) and f.attr == name
+            if not ((isinstance(f, ast.Name) and f.id == name) or via_attr):
+                continue
+            idx = pos - (skip_self if via_attr else 0)
+            arg = None
+            if 0 <= idx < len(n.args):
+                arg = n.args[idx]
+            for kw in n.keywords:
+                if kw.arg == param:
+                    arg = kw.value
+            out.append((cfi, cqn, arg))
+    return out
+
+
+def _escapes(repo, m, fi, qn, param, exceptions, seen=None):
+    """Can an object supplied by a caller of the *package* reach this parameter (which is mutated in place)?  For a
+    public function: yes.  For a private helper: only through its in-module callers -- a fresh object or a piece of
+    module state does not count, a caller's own parameter is followed upwards.  Returns a description or None."""
+    seen = seen or set()
+    if (qn, param) in seen:
+        return None
+    seen = seen | {(qn, param)}
+    if (m.name, qn, param) in exceptions or (m.name, "*", param) in exceptions:
+        return None
+    if not _is_private(qn):
+        return "%s(%s)" % (qn, param)
+    sites = _callers_pass(m, fi, qn, param)
+    if not sites:
+        return None  # a helper nobody in the package calls with this argument
+    for cfi, cqn, arg in sites:
+        if arg is None:
+            continue  # the default: R-C15-4 judges mutable defaults
+        if fx.is_fresh_expr(arg):
+            continue
+        if isinstance(arg, ast.Call):
+            continue  # the result of a call: its aliasing is the callee's business (memo escape is R-C15-2)
+        if isinstance(arg, ast.Attribute):
+            continue  # a piece of an object's own state
+        if isinstance(arg, ast.Name):
+            if arg.id in m.globals and arg.id not in cfi.params:
+                continue  # module state (ownership is R-C15-4's business)
+            alias = fx.param_aliases(cfi, [p_ for p_ in cfi.params if p_ not in ("self", "cls")])
+            if arg.id in alias:
+                if fx.rebinds_before(cfi, arg.id, arg):
+                    continue
+                if cqn == qn and alias[arg.id] == param:
+                    continue  # the helper hands its own accumulator on to itself
+                up = _escapes(repo, m, cfi, cqn, alias[arg.id], exceptions, seen)
+                if up:
+                    return "%s <- %s" % (up, qn)
+                continue
+            # a local of the caller: fresh if every assignment to it is
+            vals = [st.value for st in walk_no_nested(cfi.node) if isinstance(st, ast.Assign) and any(isinstance(t, ast.Name) and t.id == arg.id for t in st.targets)]
+            if vals and all(fx.is_fresh_expr(v) or isinstance(v, ast.Call) for v in vals):
+                continue
+            return "%s(<local %s>) <- %s" % (cqn, arg.id, qn)
+        return "%s(<%s>) <- %s" % (cqn, short(arg, 30), qn)
+    return None
+
+
 def rule_param_mutation(ctx, repo, mods, R, report=True, exceptions=PARAM_MUTATION_EXCEPTIONS):
     count = 0
     for m in mods:
@@ -315,6 +396,8 @@ def rule_param_mutation(ctx, repo, mods, R, report=True, exceptions=PARAM_MUTATI
                     local = fx.root_name(tg) if tg is not None else None
                 if local is not None and fx.rebinds_before(fi, local, node):
                     continue
+                if _is_private(qn) and _escapes(repo, m, fi, qn, p, exceptions) is None:
+                    continue  # a private helper that only ever gets fresh objects / module state / exempt accumulators
                 bad.append((p, kind, node))
             count += 1
             if report:
@@ -360,12 +443,42 @@ def rule_module_state(ctx, repo, mods, R, report=True, owners=STATE_OWNERS):
                     continue  # shadowed by a local
                 sites = fx.mutation_sites(fi, {g: g})
                 rebinds = is_global_here and any(isinstance(n, ast.Name) and n.id == g and isinstance(n.ctx, ast.Store) for n in walk_no_nested(fi.node))
-                if sites or rebinds:
+                # handing the table to a helper that edits the parameter it gets is writing it, too
+                via_helper = False
+                for n in walk_no_nested(fi.node):
+                    if isinstance(n, ast.Call) and isinstance(n.func, (ast.Name, ast.Attribute)):
+                        cname = n.func.id if isinstance(n.func, ast.Name) else n.func.attr
+                        for hqn, hfi in m.functions.items():
+                            if hqn.split(".")[-1] != cname or isinstance(hfi.node, ast.Lambda):
+                                continue
+                            for i_, a_ in enumerate(n.args):
+                                if isinstance(a_, ast.Name) and a_.id == g and i_ < len(hfi.params):
+                                    hp = hfi.params[i_]
+                                    if fx.mutation_sites(hfi, fx.param_aliases(hfi, [hp])):
+                                        via_helper = True
+                if sites or rebinds or via_helper:
                     writers.add(qn.split(".<locals>")[0])
             if not writers:
                 continue
             count += 1
             allowed = owners.get((m.name, g))
+            # a private helper writes on behalf of the functions that call it
+            def public_roots(w, seen=()):
+                if not _is_private(w) or w in seen or w not in m.functions or (allowed and w in allowed):
+                    return {w}
+                callers = {cqn.split(".<locals>")[0] for cqn, cfi in m.functions.items() if not isinstance(cfi.node, ast.Lambda) and cqn != w
+                           and any(isinstance(n, ast.Call) and ((isinstance(n.func, ast.Name) and n.func.id == w) or (isinstance(n.func, ast.Attribute) and n.func.attr == w))
+                                   for n in walk_no_nested(cfi.node))}
+                if not callers:
+                    return {w}
+                out = set()
+                for c in callers:
+                    out |= public_roots(c, seen + (w,))
+                return out
+            roots = set()
+            for w in writers:
+                roots |= public_roots(w)
+            writers = roots
             ok = allowed is not None and writers <= allowed
             if report:
                 ctx.check(ok, R, "%s.%s" % (m.name, g), m.where(m.glob(g)) if g in m.globals else m.relpath + ":0", "module state %s" % g,
@@ -519,6 +632,10 @@ def rule_accelerator(ctx, repo):
     ctx.touch(fi)
     body = fi.body
     loops = [i for i, st in enumerate(body) if isinstance(st, (ast.While, ast.For))]
+    if len(loops) == 0:
+        # no search loop of its own: the search is left to bisect (modelled in the order domain); the function is
+        # evaluated as a whole, cold and warm, and every answer and every remembered state is judged
+        return _accelerator_whole(ctx, repo, mod, fi, R)
     if len(loops) != 1:
         raise AnalysisError("fft._find_log_index: expected one search loop, found %d" % len(loops))
     loop = body[loops[0]]
@@ -674,6 +791,110 @@ def rule_accelerator(ctx, repo):
     if ok and answers < 1:
         ok, why = False, "the loop body never answers"
     ctx.check(ok, R, "_find_log_index.loop-body", fi.where(loop), "fft._find_log_index, one iteration of the search", why, paths=len(paths), answers=answers)
+
+
+def _accelerator_whole(ctx, repo, mod, fi, R):
+    from ..engine.orddom import OrdVal, MonoTable, TabVal, assume, entails, consistent
+    FFT = "mingus.extra.fft"
+    T = MonoTable("T", 129)
+
+    def in_row(it, n, v):
+        n = Lin.of(n)
+        a = entails(it, TabVal(T, n - 1), ast.Lt, v)
+        b = entails(it, v, ast.LtE, TabVal(T, n))
+        if a is True and b is True:
+            return None
+        return "%s[%s] < %s is %s, %s <= %s[%s] is %s" % (T.name, it.resolve(n - 1), v, {True: "entailed", False: "refuted", None: "not entailed"}[a],
+                                                         v, T.name, it.resolve(n), {True: "entailed", False: "refuted", None: "not entailed"}[b])
+
+    def mk(ch):
+        it = Interp(repo, ch, max_iter=8)
+        orig = it.call_builtin
+        n_calls = [0]
+
+        def cb(name, args, kwargs, node=None):
+            if name in ("bisect_left", "ext:bisect.bisect_left", "ext:bisect.bisect") and len(args) >= 2 and args[0] is T:
+                # bisect_left(T, x, lo, hi): the first index in lo..hi whose entry is not below x
+                x = args[1]
+                lo = Lin.of(args[2]) if len(args) > 2 else Lin.of(0)
+                hi = Lin.of(args[3]) if len(args) > 3 else Lin.of(T.size)
+                n_calls[0] += 1
+                llo, _ = it.lin_interval(lo)
+                _, hhi = it.lin_interval(hi)
+                idx = Lin.of(Sym("found%d" % n_calls[0], llo, hhi))
+                it._refine(idx - lo, lo=0)
+                it._refine(hi - idx, lo=0)
+                # (at either end the index is written as that end itself, so that facts about T[lo - 1] / T[hi] apply to it)
+                if not it.compare_lin(ast.Gt, idx, lo):
+                    idx = lo
+                elif not it.compare_lin(ast.Lt, idx, hi):
+                    idx = hi
+                if idx is not lo:
+                    assume(it, TabVal(T, idx - 1), ast.Lt, x)
+                if idx is not hi:
+                    assume(it, x, ast.LtE, TabVal(T, idx))
+                return idx
+            return orig(name, args, kwargs, node)
+        it.call_builtin = cb
+        return it
+    for label in ("cold", "warm"):
+        def go(it, label=label):
+            f = OrdVal("f")
+            it.global_cache[(FFT, "_log_cache")] = T
+            if label == "cold":
+                old = None
+            else:
+                lastn, lastval = Sym("lastn", 0, 127), OrdVal("lastval")
+                old = (Lin.of(lastn), lastval)
+                assume(it, TabVal(T, Lin.of(lastn) - 1), ast.Lt, lastval)
+                assume(it, lastval, ast.LtE, TabVal(T, Lin.of(lastn)))
+            it.global_cache[(FFT, "_last_asked")] = old
+            try:
+                r = ("return", it.call_function(fi, [f], {}))
+            except RaiseEx as e:
+                r = ("raise", e.exc)
+            return r, f, old, it.global_cache[(FFT, "_last_asked")]
+        try:
+            paths = explore(mk, go)
+        except CannotDecide as e:
+            raise AnalysisError("fft._find_log_index (%s, as a whole): %s" % (label, e))
+        ok, why, n_ans = bool(paths), "no outcome", 0
+        for p in paths:
+            it = p.interp
+            if not consistent(it):
+                continue
+            (kind, val), f, old, st = p.value
+            if kind == "raise":
+                ok, why = False, "raises %s" % val
+                break
+            li = Lin.of(val) if not isinstance(val, (str, tuple, bool)) and val is not None else None
+            if li is None:
+                ok, why = False, "answers %r" % (val,)
+                break
+            n_ans += 1
+            if li.is_const() and li.const == 128:
+                if entails(it, f, ast.Gt, TabVal(T, 127)) is not True and entails(it, f, ast.LtE, 0) is not True:
+                    ok, why = False, "answers 128 (out of range) without f > %s[127] or f <= 0" % T.name
+                    break
+            else:
+                w = in_row(it, li, f)
+                if w:
+                    ok, why = False, "answers %s although f need not lie in that row (%s): a cold lookup would answer differently" % (it.resolve(li), w)
+                    break
+            if st is not old and st is not None:
+                if not (isinstance(st, tuple) and len(st) == 2 and isinstance(st[1], OrdVal)):
+                    ok, why = False, "the remembered state becomes %r" % (st,)
+                    break
+                rlo, rhi = it.lin_interval(it.resolve(Lin.of(st[0])))
+                if rhi > 127 and rhi <= 128 and entails(it, TabVal(T, Lin.of(st[0]) - 1), ast.Lt, TabVal(T, 127)) is True:
+                    rhi = 127
+                w = in_row(it, st[0], st[1])
+                if rlo < 0 or rhi > 127 or w:
+                    ok, why = False, "the remembered pair (%s, %s) is not 'a row 0..127 and a frequency that lies in it': %s" % (it.resolve(Lin.of(st[0])), st[1], w or "row %s..%s" % (rlo, rhi))
+                    break
+        ctx.check(ok, R, "_find_log_index.whole[%s]" % label, fi.where(), "fft._find_log_index, %s state, evaluated as a whole" % label, why, paths=len(paths), answers=n_ans)
+    # (keeps the instance count of the sliced mode: three obligations)
+    ctx.held(R, "_find_log_index.search-by-bisect", fi.where(), note="the search itself is bisect's")
 
 
 # ------------------------------------------------------------------------------ fixtures
